@@ -1,5 +1,119 @@
 import Sentinel.Drv.Common
-/-! Driver for C19 (stub: replaced by the property's real driver) -/
+import Sentinel.Model.AdapterIR
+import Sentinel.Model.AdapterIRKnown
+/-!
+# Driver for C19 (core Lean only; does not import the generated table — it reads its text twin)
+
+Ops (`<sc>` = `blocked|admitted` `ok|err|panic`):
+
+* `conf <key> <sc>`  — model: the IR text of entry point `<key>` in the table written at the last
+  regeneration (`Sentinel/Gen/adapters.ir`, the text twin of `Sentinel/Gen/Adapters.lean`), or `gone`.
+  The implementation side (`corr C19`) answers with the IR extracted from the sources *now*.
+* `trace <key> <sc>` — model: the event trace `runProg` predicts for that entry point and scenario.
+  The implementation side are the dynamic harnesses (`go/c19/*`), which print the events they observed.
+
+`oracle` mode judges implementation lines with `conforms` / `conformsTrace`: `ok`, `bad …`,
+`known:<key>` (the program is a recorded finding: same key and body as a copy in `AdapterIRKnown`), `?`.
+-/
 namespace Sentinel.Drv.C19
-def run (_mode : String) : IO Unit := IO.eprintln "C19: driver not implemented"
+open Sentinel.Drv Sentinel.AdapterIR
+
+def parseScenario? (b h : String) : Option Scenario :=
+  match b, Handler.parse? h with
+  | "blocked", some hd => some ⟨true, hd⟩
+  | "admitted", some hd => some ⟨false, hd⟩
+  | _, _ => none
+
+def showTrace (tr : List Ev) : String := if tr.isEmpty then "-" else traceText tr
+
+def parseTrace? (s : String) : Option (List Ev) :=
+  if s = "-" then some [] else (s.splitOn ",").mapM Ev.parse?
+
+/-- `key ir…` lines of adapters.ir -/
+def parseTable (txt : String) : List (String × List String) :=
+  (txt.splitOn "\n").filterMap fun l =>
+    if l.startsWith "#" then none else
+    match toks l with
+    | k :: ir => some (k, ir)
+    | [] => none
+
+def tablePath : IO System.FilePath := do
+  match (← IO.getEnv "VERIF_C19_IR") with
+  | some p => return p
+  | none =>
+    let app ← IO.appPath
+    -- <lean>/.lake/build/bin/sentinel-driver  →  <lean>/Sentinel/Gen/adapters.ir
+    let lean := (((app.parent.getD ".").parent.getD ".").parent.getD ".").parent.getD "."
+    return lean / "Sentinel" / "Gen" / "adapters.ir"
+
+def loadTable : IO (List (String × List String)) := do
+  let p ← tablePath
+  if ← p.pathExists then
+    return parseTable (← IO.FS.readFile p)
+  else
+    return []
+
+def lookup (tbl : List (String × List String)) (k : String) : Option (List String) :=
+  (tbl.find? (·.1 = k)).map (·.2)
+
+def modelStep (tbl : List (String × List String)) (ts : List String) : Option String :=
+  match ts with
+  | ["conf", k, b, h] =>
+    match parseScenario? b h with
+    | none => some "bad-op"
+    | some _ =>
+      match lookup tbl k with
+      | some ir => some (" ".intercalate ir)
+      | none => some "gone"
+  | ["trace", k, b, h] =>
+    match parseScenario? b h, lookup tbl k with
+    | some sc, some ir =>
+      match parseBody ir with
+      | some body => some (showTrace (observable (runProg sc body)))
+      | none => some "unparsable-ir"
+    | none, _ => some "bad-op"
+    | _, none => some "gone"
+  | _ => some "bad-op"
+
+def judgeConf (k : String) (sc : Scenario) (res : String) : String :=
+  if res = "gone" then "?" else
+  match parseBody (toks res) with
+  | none => "bad unparsable-ir"
+  | some body =>
+    let p : Prog := ⟨k, body⟩
+    if conforms p sc then "ok"
+    else if isKnown p then "known:" ++ k
+    else "bad trace=" ++ showTrace (runProg sc body)
+
+def judgeTrace (k : String) (sc : Scenario) (res : String) : String :=
+  match parseTrace? res with
+  | none => "bad unparsable-trace"
+  | some tr =>
+    if conformsTrace sc tr then "ok"
+    else
+      -- a recorded finding explains exactly the trace its recorded body predicts
+      match knownProgs.find? (·.key = k) with
+      | some kp => if observable (runProg sc kp.body) = observable tr then "known:" ++ k else "bad observed-trace-violates-contract"
+      | none => "bad observed-trace-violates-contract"
+
+def oracleStep (ts : List String) (line : String) : Option String :=
+  match ts, resPart line with
+  | ["conf", k, b, h], some res =>
+    match parseScenario? b h with
+    | some sc => some (judgeConf k sc res)
+    | none => some "bad-op"
+  | ["trace", k, b, h], some res =>
+    match parseScenario? b h with
+    | some sc => some (judgeTrace k sc res)
+    | none => some "bad-op"
+  | _, _ => some "bad-op"
+
+def run (mode : String) : IO Unit := do
+  match mode with
+  | "model" =>
+    let tbl ← loadTable
+    loop () fun _ ts _ => ((), modelStep tbl ts)
+  | "oracle" | "spec" =>
+    loop () fun _ ts line => ((), oracleStep ts line)
+  | _ => IO.eprintln ("C19: unknown mode " ++ mode)
 end Sentinel.Drv.C19
